@@ -1379,7 +1379,7 @@ def run(ctx, nscen=None, ndir=None):
     bundles = [b"# Bazaar revision bundle v4\n#\nBZh91AY&SY" + bytes(rng.randrange(256) for _ in range(80))]
     from bzrformats import rio
     good = rio.Stanza(revision_id="r", timestamp="2020-01-01 00:00:00 +0000", target_branch="t", source_branch="s",
-                      base_revision_id="b")
+                      testament_sha1="0" * 40, base_revision_id="b")
     for i in range(ndir or ctx.pick(150, 1500)):
         kw = gen_directive_kwargs(rng, bundles)
         lines = directive_case(kw, out, via_file=(i % 2 == 0))
@@ -1415,7 +1415,7 @@ def replay(ctx, case):
         sh = shim()
         from bzrformats import rio
         sh.canned = rio.Stanza(revision_id="r", timestamp="2020-01-01 00:00:00 +0000", target_branch="t",
-                               source_branch="s", base_revision_id="b")
+                               source_branch="s", testament_sha1="0" * 40, base_revision_id="b")
         try:
             d2 = md.MergeDirective.from_lines(lines)
             impl = "ok %s %s" % (hexo(getattr(d2, "patch", None)), hexo(getattr(d2, "bundle", None)))
